@@ -40,6 +40,13 @@ def _pool(seed, n):
     texts = ["tomorrow 8pm", "8:00 pm", "12.12.2020", "monday", "#work call mom tomorrow at 5pm #family", "gargelbabel", "", "9-5", "23:00 - 3:00",
              "am 5. märz um 14 uhr", "3 days 15.11.2021 - 18.11.2021", "heute abend", "the 5th of march 2021 at 3 o'clock", "übermorgen früh",
              "from 8 to 10", "between 9:00 and 17:00 on friday", "half past eight", "dreißig tage", "31.04.2018", "late very late evening"]
+    # the same tokens in another order (state keyed on an order-insensitive summary of an earlier text shows up here)
+    for base in ["next week on friday", "tomorrow at 5pm", "morgen um 8 uhr", "monday morning 9 to 5", "am freitag von 8 bis 10", "5th of march at noon",
+                 "on friday 12.03.2021 at 8:30", "heute abend um 20 uhr"]:
+        toks = base.split()
+        texts.append(base)
+        texts.append(" ".join(toks[::-1]))
+        texts.append(" ".join(toks[1:] + toks[:1]))
     corp = T.corpus_texts()
     while len(texts) < n:
         texts.append(r.choice([G.expression(r)[1], r.choice(corp), T.soup(r)]))
@@ -91,11 +98,11 @@ def _tables(entries, hashseeds, workdir, per_proc):
 def gen_cases(tier, seed):
     _PRE["results"][:] = []
     _PRE["summaries"][:] = []
-    n = 60 if tier == "thorough" else 36
+    n = 80 if tier == "thorough" else 50
     entries = _pool(seed, n)
     workdir = os.path.join(env.OUT, "out", "work", "C12-tables-%d" % os.getpid())
     hss = ["0", "1", "2", "random"] if tier == "thorough" else ["0", "1", "random"]
-    tables, digests, errors = _tables(entries, hss, workdir, per_proc=1 if tier == "thorough" else 4)
+    tables, digests, errors = _tables(entries, hss, workdir, per_proc=1)
     try:
         os.rmdir(workdir)
     except OSError:
@@ -117,19 +124,19 @@ def gen_cases(tier, seed):
             _PRE["results"].append({"st": "viol", "sig": "model-digest-differs-between-processes", "msg": "digests %s" % sorted(digests[hs] | digests["0"]), "key": "hashseed/" + hs, "cls": "hashseed", "nt": True, "case": case})
         else:
             _PRE["results"].append({"st": "ok", "key": "hashseed/" + hs, "cls": "hashseed", "nt": True, "case": case,
-                                    "obs": {"hashseed": hs, "entries_equal_to_seed0": len(ref), "fresh_processes": len(entries) if tier == "thorough" else (len(entries) + 3) // 4}})
+                                    "obs": {"hashseed": hs, "entries_equal_to_seed0": len(ref), "fresh_processes": len(entries)}})
     _PRE["summaries"].append({"_summary": True, "events": {"fresh_process_table_entries": len(ref) * len(hss)}, "rules_fired": {}, "extra": {}})
     digest = sorted(digests["0"])[0]
     shared = {"entries": entries, "ref": ref, "digest": digest}
     cases = []
-    for i in range(60 if tier == "thorough" else 14):
-        cases.append(dict(shared, k="history", i=i, n=60))
+    for i in range(60 if tier == "thorough" else 16):
+        cases.append(dict(shared, k="history", i=i, n=90))
     # fixed pool entries with the longest solo streams first (10, 5, 10, 14, 4, 3 candidates)
     pairs = [(8, 12), (14, 9), (12, 14), (8, 8), (10, 4), (9, 13), (14, 14), (8, 0), (12, 1), (4, 13), (14, 10), (9, 9)]
     for a, b in (pairs if tier == "thorough" else pairs[:3]):
         cases.append({"k": "interleave", "a": entries[a], "b": entries[b], "steps": 6 if tier == "thorough" else 5})
     for i in range(6 if tier == "thorough" else 2):
-        cases.append(dict(shared, k="threads", i=i, inject=bool(i % 2), calls=40 if tier == "thorough" else 25))
+        cases.append(dict(shared, k="threads", i=i, inject=bool(i % 2), calls=(40 if tier == "thorough" else 25) if not i % 2 else (20 if tier == "thorough" else 10)))
     return cases
 
 
@@ -377,7 +384,7 @@ def _threads(case, ctx):
             if not code.co_filename.startswith(root):
                 return M.DISABLE
             cnt[0] += 1
-            if cnt[0] % 23 == 0:
+            if cnt[0] % 101 == 0:
                 sites.add((os.path.basename(code.co_filename), line))
                 nswitch[0] += 1
                 time.sleep(0)
